@@ -1,6 +1,8 @@
 """Replay driver for C03 on the real build."""
 import numpy as np
 
+from .util import unfrac
+
 
 def replay(spec):
     import warnings
@@ -25,6 +27,34 @@ def replay(spec):
                                 (s, U[idx[s], 1], D[idx[s], 1], pr.count(s) - re.count(s), dpr.count(s) - dre.count(s)))
         if M.get_species_list() != spec["order"]:
             problems.append("species order %s" % M.get_species_list())
+    elif kind == "derivative" and "values" in spec:
+        # the counterexample's own stoichiometry: reaction r consumes / produces species s |U[s,r]| times immediately and
+        # |D[s,r]| times after a fixed delay; its rate is the constant a_r (general propensity)
+        v = unfrac(spec["values"])
+        S, R = spec["S"], spec["R"]
+        names = ["S%d" % i for i in range(S)]
+        U = [[int(v.get("U_%d_%d" % (i, j), 0)) for j in range(R)] for i in range(S)]
+        D = [[int(v.get("D_%d_%d" % (i, j), 0)) for j in range(R)] for i in range(S)]
+        a = [float(v.get("a_%d" % j, 1.0)) or 1.0 for j in range(R)]
+        rxs = []
+        for j in range(R):
+            def side(M_, sign):
+                out = []
+                for i in range(S):
+                    if M_[i][j] * sign > 0:
+                        out += [names[i]] * abs(M_[i][j])
+                return out
+            rxs.append((side(U, -1), side(U, 1), "general", {"rate": repr(a[j])}, "fixed", side(D, -1), side(D, 1), {"delay": 1.0}))
+        M = Model(species=names, reactions=rxs)
+        itf = (SafeModelCSimInterface if spec.get("safe") else ModelCSimInterface)(M)
+        itf.py_prep_deterministic_simulation()
+        x = np.array([abs(float(v.get("x_%d" % i, 1.0))) + 1.0 for i in range(S)])
+        dx = np.zeros(S)
+        itf.py_calculate_deterministic_derivative(x, dx, 0.0)
+        for i in range(S):
+            want = sum((U[i][j] + D[i][j]) * a[j] for j in range(R))
+            if abs(dx[i] - want) > 1e-9 * (1 + abs(want)):
+                problems.append("d%s/dt = %r, expected %r (immediate %s, delayed %s, rates %s)" % (names[i], dx[i], want, U[i], D[i], a))
     elif kind in ("derivative", "model_derivative"):
         k1, k2, k3 = 0.7, 0.4, 1.3
         M = Model(species=["B", "A", "C"],
